@@ -176,6 +176,7 @@ def c10(ctx, rep):
     _r(gtxn_tables.rule_key_universe, ctx, rep)
     _r(gtxn_tables.rule_gtxn_attribution, ctx, rep)
     _r(gtxn_tables.rule_gtxn_merge, ctx, rep)
+    _r(gtxn_tables.rule_gtxn_programs, ctx, rep)
     for name, mod in (("T-STORE(fee)", "fee_field"), ("T-STORE(addr)", "addr_fields"), ("T-STORE(kind)", "txn_types")):
         rep.rule(name, "key family <-> context accessor pairing in _store_results")
         cmptables._store_family_rule(ctx, rep, name, mod)
